@@ -7,7 +7,11 @@
 import re
 
 from ural.ensure_protocol import ensure_protocol
-from ural.patterns import DOMAIN_TEMPLATE, QUERY_VALUE_IN_URL_TEMPLATE
+from ural.patterns import (
+    DOMAIN_TEMPLATE,
+    DOMAIN_LABELS_PREFIX,
+    QUERY_VALUE_IN_URL_TEMPLATE,
+)
 
 from ural.utils import (
     safe_parse_qs,
@@ -28,7 +32,7 @@ FACEBOOK_ID_RE = re.compile(r"^\d+$")
 FACEBOOK_FULL_ID_RE = re.compile(r"^\d+_\d+$")
 FACEBOOK_DOMAIN_RE = re.compile(r"(?:^|\.)(?:facebook\.[^.]+|fb\.me)$", re.I)
 FACEBOOK_URL_RE = re.compile(
-    DOMAIN_TEMPLATE % r"(?:[^.]+\.)*(?:facebook\.[^.]+|fb\.me)", re.I
+    DOMAIN_TEMPLATE % (DOMAIN_LABELS_PREFIX + r"(?:facebook\.[^\s./?#@:]+|fb\.me)"), re.I
 )
 MOBILE_REPLACE_RE = re.compile(r"^([^.]+\.)?facebook\.", re.I)
 
